@@ -99,21 +99,61 @@ pub proof fn lemma_cast_paragraphs(nodes: Seq<SyntaxNode>, a: Seq<Option<Paragra
         assert(nodes.last().tree() == cn.last());
     }
 }
-pub proof fn lemma_cast_entries(nodes: Seq<SyntaxNode>, a: Seq<Option<Entry>>, cn: Seq<Tree>)
+/// positions (among all children) of the child nodes of kind k, in order
+pub open spec fn kind_positions(ch: Seq<Tree>, k: SyntaxKind) -> Seq<int>
+    decreases ch.len()
+{
+    if ch.len() == 0 { Seq::empty() }
+    else if ch.last() is Node && rowan::tree_kind(ch.last()) == k { kind_positions(ch.drop_last(), k).push(ch.len() - 1) }
+    else { kind_positions(ch.drop_last(), k) }
+}
+/// of the positions np (one per tree in cn), those whose tree has kind k
+pub open spec fn pos_filter(cn: Seq<Tree>, np: Seq<int>, k: SyntaxKind) -> Seq<int>
+    decreases cn.len()
+{
+    if cn.len() == 0 || np.len() != cn.len() { Seq::empty() }
+    else if rowan::tree_kind(cn.last()) == k { pos_filter(cn.drop_last(), np.drop_last(), k).push(np.last()) }
+    else { pos_filter(cn.drop_last(), np.drop_last(), k) }
+}
+pub open spec fn entry_positions(ch: Seq<Tree>) -> Seq<int> { kind_positions(ch, ENTRY) }
+pub open spec fn entries_at(hs: Seq<Entry>, ps: Seq<int>) -> bool {
+    hs.len() == ps.len() && forall|i: int| 0 <= i < hs.len() ==> (#[trigger] hs[i]).0.index_spec() == ps[i]
+}
+pub proof fn lemma_pos_filter(ch: Seq<Tree>, k: SyntaxKind)
+    ensures
+        rowan::node_positions(ch).len() == rowan::child_nodes(ch).len(),
+        pos_filter(rowan::child_nodes(ch), rowan::node_positions(ch), k) == kind_positions(ch, k),
+    decreases ch.len()
+{
+    if ch.len() > 0 {
+        lemma_pos_filter(ch.drop_last(), k);
+        if ch.last() is Node {
+            let cn = rowan::child_nodes(ch); let np = rowan::node_positions(ch);
+            assert(cn.drop_last() =~= rowan::child_nodes(ch.drop_last()));
+            assert(np.drop_last() =~= rowan::node_positions(ch.drop_last()));
+            assert(cn.last() == ch.last());
+            assert(np.last() == ch.len() - 1);
+        }
+    }
+}
+pub proof fn lemma_cast_entries(nodes: Seq<SyntaxNode>, a: Seq<Option<Entry>>, cn: Seq<Tree>, np: Seq<int>)
     requires
-        nodes_are(nodes, cn), a.len() == nodes.len(),
+        nodes_are(nodes, cn), a.len() == nodes.len(), np.len() == nodes.len(),
+        forall|i: int| 0 <= i < nodes.len() ==> (#[trigger] nodes[i]).index_spec() == np[i],
         forall|i: int| 0 <= i < nodes.len() ==> (rowan::tree_kind(cn[i]) == ENTRY ==> #[trigger] a[i] is Some && a[i]->Some_0.0 == nodes[i])
             && (rowan::tree_kind(cn[i]) != ENTRY ==> a[i] is None),
-    ensures entries_are(somes(a), kind_filter(cn, ENTRY))
+    ensures entries_are(somes(a), kind_filter(cn, ENTRY)), entries_at(somes(a), pos_filter(cn, np, ENTRY))
     decreases nodes.len()
 {
     if nodes.len() > 0 {
-        let n2 = nodes.drop_last(); let a2 = a.drop_last(); let c2 = cn.drop_last();
+        let n2 = nodes.drop_last(); let a2 = a.drop_last(); let c2 = cn.drop_last(); let p2 = np.drop_last();
         assert forall|i: int| 0 <= i < n2.len() implies (#[trigger] n2[i]).tree() == c2[i] by { assert(n2[i] == nodes[i]); }
+        assert forall|i: int| 0 <= i < n2.len() implies (#[trigger] n2[i]).index_spec() == p2[i] by { assert(n2[i] == nodes[i]); }
         assert forall|i: int| 0 <= i < n2.len() implies (rowan::tree_kind(c2[i]) == ENTRY ==> #[trigger] a2[i] is Some && a2[i]->Some_0.0 == n2[i])
             && (rowan::tree_kind(c2[i]) != ENTRY ==> a2[i] is None) by { assert(a2[i] == a[i]); assert(c2[i] == cn[i]); assert(n2[i] == nodes[i]); }
-        lemma_cast_entries(n2, a2, c2);
+        lemma_cast_entries(n2, a2, c2, p2);
         assert(nodes.last().tree() == cn.last());
+        assert(nodes.last().index_spec() == np.last());
     }
 }
 /// filter_map(|it| it.into_token()) over all children
@@ -266,3 +306,185 @@ pub proof fn lemma_get_all(ps: Seq<(String, String)>, a: Seq<Option<String>>, l:
         assert(strs_view(somes(a)) =~= pairs_get_all(l, key));
     }
 }
+
+// ---- generic lemmas about child_nodes / child_toks / kind_filter -------------------------------------------------
+pub open spec fn all_nodes(ts: Seq<Tree>) -> bool { forall|i: int| 0 <= i < ts.len() ==> (#[trigger] ts[i]) is Node }
+pub open spec fn all_toks(ts: Seq<Tree>) -> bool { forall|i: int| 0 <= i < ts.len() ==> (#[trigger] ts[i]) is Tok }
+
+pub proof fn lemma_child_nodes_add(a: Seq<Tree>, b: Seq<Tree>)
+    ensures rowan::child_nodes(a + b) == rowan::child_nodes(a) + rowan::child_nodes(b)
+    decreases b.len()
+{
+    if b.len() == 0 {
+        assert(a + b =~= a);
+        assert(rowan::child_nodes(a) + rowan::child_nodes(b) =~= rowan::child_nodes(a));
+    } else {
+        lemma_child_nodes_add(a, b.drop_last());
+        assert((a + b).drop_last() =~= a + b.drop_last());
+        assert((a + b).last() == b.last());
+        assert(rowan::child_nodes(a + b) =~= rowan::child_nodes(a) + rowan::child_nodes(b));
+    }
+}
+pub proof fn lemma_child_toks_add(a: Seq<Tree>, b: Seq<Tree>)
+    ensures child_toks(a + b) == child_toks(a) + child_toks(b)
+    decreases b.len()
+{
+    if b.len() == 0 {
+        assert(a + b =~= a);
+        assert(child_toks(a) + child_toks(b) =~= child_toks(a));
+    } else {
+        lemma_child_toks_add(a, b.drop_last());
+        assert((a + b).drop_last() =~= a + b.drop_last());
+        assert((a + b).last() == b.last());
+        assert(child_toks(a + b) =~= child_toks(a) + child_toks(b));
+    }
+}
+pub proof fn lemma_kind_filter_add(a: Seq<Tree>, b: Seq<Tree>, k: SyntaxKind)
+    ensures kind_filter(a + b, k) == kind_filter(a, k) + kind_filter(b, k)
+    decreases b.len()
+{
+    if b.len() == 0 {
+        assert(a + b =~= a);
+        assert(kind_filter(a, k) + kind_filter(b, k) =~= kind_filter(a, k));
+    } else {
+        lemma_kind_filter_add(a, b.drop_last(), k);
+        assert((a + b).drop_last() =~= a + b.drop_last());
+        assert((a + b).last() == b.last());
+        assert(kind_filter(a + b, k) =~= kind_filter(a, k) + kind_filter(b, k));
+    }
+}
+pub proof fn lemma_child_nodes_of_nodes(ts: Seq<Tree>)
+    requires all_nodes(ts)
+    ensures rowan::child_nodes(ts) == ts, child_toks(ts) == Seq::<Tree>::empty()
+    decreases ts.len()
+{
+    if ts.len() > 0 {
+        assert forall|i: int| 0 <= i < ts.drop_last().len() implies (#[trigger] ts.drop_last()[i]) is Node by { assert(ts.drop_last()[i] == ts[i]); }
+        lemma_child_nodes_of_nodes(ts.drop_last());
+        assert(ts.last() is Node);
+        assert(rowan::child_nodes(ts) =~= ts);
+    } else {
+        assert(rowan::child_nodes(ts) =~= ts);
+    }
+}
+pub proof fn lemma_child_nodes_of_toks(ts: Seq<Tree>)
+    requires all_toks(ts)
+    ensures rowan::child_nodes(ts) == Seq::<Tree>::empty(), child_toks(ts) == ts
+    decreases ts.len()
+{
+    if ts.len() > 0 {
+        assert forall|i: int| 0 <= i < ts.drop_last().len() implies (#[trigger] ts.drop_last()[i]) is Tok by { assert(ts.drop_last()[i] == ts[i]); }
+        lemma_child_nodes_of_toks(ts.drop_last());
+        assert(ts.last() is Tok);
+        assert(child_toks(ts) =~= ts);
+    } else {
+        assert(child_toks(ts) =~= ts);
+    }
+}
+/// filtering by a kind none / all of the elements have
+pub proof fn lemma_kind_filter_none(ts: Seq<Tree>, k: SyntaxKind)
+    requires forall|i: int| 0 <= i < ts.len() ==> rowan::tree_kind(#[trigger] ts[i]) != k
+    ensures kind_filter(ts, k) == Seq::<Tree>::empty()
+    decreases ts.len()
+{
+    if ts.len() > 0 {
+        assert forall|i: int| 0 <= i < ts.drop_last().len() implies rowan::tree_kind(#[trigger] ts.drop_last()[i]) != k by { assert(ts.drop_last()[i] == ts[i]); }
+        lemma_kind_filter_none(ts.drop_last(), k);
+        assert(rowan::tree_kind(ts.last()) != k);
+    }
+}
+pub proof fn lemma_kind_filter_all(ts: Seq<Tree>, k: SyntaxKind)
+    requires forall|i: int| 0 <= i < ts.len() ==> rowan::tree_kind(#[trigger] ts[i]) == k
+    ensures kind_filter(ts, k) == ts
+    decreases ts.len()
+{
+    if ts.len() > 0 {
+        assert forall|i: int| 0 <= i < ts.drop_last().len() implies rowan::tree_kind(#[trigger] ts.drop_last()[i]) == k by { assert(ts.drop_last()[i] == ts[i]); }
+        lemma_kind_filter_all(ts.drop_last(), k);
+        assert(rowan::tree_kind(ts.last()) == k);
+        assert(kind_filter(ts, k) =~= ts);
+    } else {
+        assert(kind_filter(ts, k) =~= ts);
+    }
+}
+
+/// kind_filter on a three-element list whose middle element only is a VALUE
+pub proof fn lemma_kind3(a: Tree, b: Tree, c: Tree)
+    requires rowan::tree_kind(a) != VALUE, rowan::tree_kind(b) == VALUE, rowan::tree_kind(c) != VALUE
+    ensures kind_filter(seq![a, b, c], VALUE) == seq![b]
+{
+    let s3 = seq![a, b, c];
+    let s2 = s3.drop_last();
+    let s1 = s2.drop_last();
+    let s0 = s1.drop_last();
+    assert(s0 =~= Seq::<Tree>::empty());
+    assert(kind_filter(s0, VALUE) =~= Seq::<Tree>::empty());
+    assert(s1.last() == a);
+    assert(kind_filter(s1, VALUE) =~= Seq::<Tree>::empty());
+    assert(s2.last() == b);
+    assert(kind_filter(s2, VALUE) =~= seq![b]);
+    assert(s3.last() == c);
+    assert(kind_filter(s3, VALUE) =~= seq![b]);
+}
+pub proof fn lemma_kind_filter_single(a: Tree, k: SyntaxKind)
+    ensures kind_filter(seq![a], k) == if rowan::tree_kind(a) == k { seq![a] } else { Seq::<Tree>::empty() }
+{
+    let s = seq![a];
+    assert(s.drop_last() =~= Seq::<Tree>::empty());
+    assert(kind_filter(s.drop_last(), k) =~= Seq::<Tree>::empty());
+    assert(s.last() == a);
+    if rowan::tree_kind(a) == k { assert(kind_filter(s, k) =~= seq![a]); } else { assert(kind_filter(s, k) =~= Seq::<Tree>::empty()); }
+}
+
+// ---- lookups against the list model ----------------------------------------------------------------------------------
+pub proof fn lemma_entries_items_front(es: Seq<Tree>)
+    requires es.len() > 0
+    ensures entries_items(es) == (if t_key(es[0]) is Some { seq![(t_key(es[0])->Some_0, t_value(es[0]))] } else { Seq::<Pair>::empty() }) + entries_items(es.skip(1))
+    decreases es.len()
+{
+    let h = if t_key(es[0]) is Some { seq![(t_key(es[0])->Some_0, t_value(es[0]))] } else { Seq::<Pair>::empty() };
+    if es.len() == 1 {
+        assert(es.drop_last() =~= Seq::<Tree>::empty());
+        assert(es.skip(1) =~= Seq::<Tree>::empty());
+        assert(es.last() == es[0]);
+        assert(entries_items(es) =~= h + entries_items(es.skip(1)));
+    } else {
+        lemma_entries_items_front(es.drop_last());
+        assert(es.drop_last().skip(1) =~= es.skip(1).drop_last());
+        assert(es.skip(1).last() == es.last());
+        assert(es.drop_last()[0] == es[0]);
+        assert(entries_items(es) =~= h + entries_items(es.skip(1)));
+    }
+}
+/// "the first field of that name": the lookup by name is list_get on the (name, value) list
+pub proof fn lemma_entries_get_is_list_get(es: Seq<Tree>, key: Seq<char>)
+    ensures entries_get(es, key) == list_get(entries_items(es), key)
+    decreases es.len()
+{
+    if es.len() == 0 {
+        assert(entries_items(es) =~= Seq::<Pair>::empty());
+    } else {
+        lemma_entries_get_is_list_get(es.skip(1), key);
+        lemma_entries_items_front(es);
+        let l = entries_items(es);
+        let r = entries_items(es.skip(1));
+        if t_key(es[0]) is Some {
+            let h = (t_key(es[0])->Some_0, t_value(es[0]));
+            assert(l =~= seq![h] + r);
+            assert(l[0] == h);
+            assert(l.skip(1) =~= r);
+            lemma_first_idx(r, key);
+            if h.0 == key {
+                assert(first_idx(l, key) == 0);
+            } else {
+                let i = first_idx(r, key);
+                assert(first_idx(l, key) == if i < 0 { -1 } else { i + 1 });
+                if i >= 0 { assert(l[i + 1] == r[i]); }
+                assert(t_key(es[0]) != Some(key));
+            }
+        } else {
+            assert(l =~= r);
+        }
+    }
+}
+
